@@ -764,6 +764,82 @@ func c08SubtableLimit(r *run.Run) {
 		})
 }
 
+// the 16-bit offsets of the feature list: n small features, optionally followed by one feature with many
+// lookups (its table may extend past 64 KiB as long as it starts below); entry counts around the
+// smallest count that does not round-trip (bisection)
+func c08ListLimits(r *run.Run) {
+	window := 5
+	if !r.Quick() {
+		window = 30
+	}
+	type kind struct {
+		name string
+		mk   func(n int) *gtab.Info
+	}
+	featureList := func(last int) func(n int) *gtab.Info {
+		return func(n int) *gtab.Info {
+			info := &gtab.Info{ScriptList: gtab.ScriptListInfo{}, LookupList: gtab.LookupList{gen.MakeLookup(1, gen.Flags[0], gen.GsubSimple[0].Sub())}}
+			var opt []gtab.FeatureIndex
+			for i := 0; i < n; i++ {
+				info.FeatureList = append(info.FeatureList, &gtab.Feature{Tag: fmt.Sprintf("f%03d", i%1000), Lookups: []gtab.LookupIndex{0}})
+				if i%97 == 0 {
+					opt = append(opt, gtab.FeatureIndex(i))
+				}
+			}
+			if last > 0 {
+				f := &gtab.Feature{Tag: "last"}
+				for i := 0; i < last; i++ {
+					f.Lookups = append(f.Lookups, 0)
+				}
+				info.FeatureList = append(info.FeatureList, f)
+				opt = append(opt, gtab.FeatureIndex(n))
+			}
+			info.ScriptList[language.MustParse("und-Zzzz-x-dflt")] = &gtab.Features{Required: 0xFFFF, Optional: opt}
+			return info
+		}
+	}
+	kinds := []kind{
+		{"feature list of n one-lookup features", featureList(0)},
+		{"feature list of n one-lookup features and a last feature with 3000 lookups", featureList(3000)},
+		{"feature list of n one-lookup features and a last feature with 40000 lookups", featureList(40000)},
+	}
+	clean := func(k, n int) bool {
+		info := kinds[k].mk(n)
+		ok := false
+		guard(func() {
+			back, err := gtab.Read(bytes.NewReader(info.Encode()), gtab.TypeGsub)
+			ok = err == nil && (reflect.DeepEqual(info, back) || cmp.Equal(info, back, c08cmp...))
+		})
+		return ok
+	}
+	firstBad := make([]int, len(kinds))
+	for k := range kinds {
+		lo, hi := 1, 12000
+		for lo < hi {
+			mid := (lo + hi) / 2
+			if clean(k, mid) {
+				lo = mid + 1
+			} else {
+				hi = mid
+			}
+		}
+		firstBad[k] = lo
+	}
+	r.Explore(explore.Config{Name: "C08.list-limits", Deadline: r.PartDeadline(0.5)},
+		fmt.Sprintf("feature lists of n one-lookup features, alone or followed by a last feature with 3000 / 40000 lookups (a table that starts below 64 KiB may extend beyond it), for every n in a window of +-%d around the smallest n that does not round-trip (bisection): the encoder refuses loudly or the list comes back intact", window),
+		func(c *explore.Ctx) {
+			k := c.Choose(len(kinds), "kind")
+			n := firstBad[k] - window + c.Choose(2*window+1, "n relative to the first count that does not round-trip")
+			if n < 1 {
+				c.Skip("no entries")
+			}
+			desc := fmt.Sprintf("%s, n = %d (the first n that does not round-trip is %d)", kinds[k].name, n, firstBad[k])
+			c.Sample(func() any { return desc })
+			c.Nontrivial()
+			c08RoundTripOnce(c, "list limit: "+kinds[k].name, kinds[k].mk(n), gtab.TypeGsub, desc)
+		})
+}
+
 func c08Sizes(r *run.Run) {
 	maxLookups := 2
 	if !r.Quick() {
@@ -879,6 +955,7 @@ func init() {
 		c08Gdef(r)
 		c08Lookups(r)
 		c08SubtableLimit(r)
+		c08ListLimits(r)
 		c08Sizes(r)
 	})
 }
